@@ -48,6 +48,7 @@ func cmdExplore(args []string) {
 	maxPaths := fs.Int("max-paths", 0, "max paths")
 	params := fs.String("params", "", "k=v,k=v")
 	noinstr := fs.Bool("noinstr", false, "skip instrumentation")
+	solver := fs.String("solver", "z3", "z3|z3-new|cvc5")
 	fs.Parse(args)
 	rest := fs.Args()
 	if len(rest) < 2 {
@@ -81,7 +82,7 @@ func cmdExplore(args []string) {
 		fmt.Fprintf(os.Stderr, "no function %s in %s\n", fn, pkg)
 		os.Exit(2)
 	}
-	cfg := symx.Config{Workers: *workers, Trace: *trace, MaxPaths: *maxPaths, SampleModels: 2, Params: parseParams(*params)}
+	cfg := symx.Config{Workers: *workers, Trace: *trace, MaxPaths: *maxPaths, SampleModels: 2, Params: parseParams(*params), Solver: *solver}
 	sh := symx.NewShared(l.prog)
 	rep := symx.Explore(l.prog, sh, f, cfg)
 	rep.Funcs = trimFuncs(rep.Funcs)
